@@ -423,6 +423,19 @@ type pathResult struct {
 	Threads   []string          `json:"threads,omitempty"`
 	Reached   []string          `json:"reached,omitempty"`
 	Steps     int64             `json:"steps"`
+	key       string
+	score     int
+}
+
+// schedScore ranks a schedule: preemptions first, then length.
+func schedScore(sw []switchEv) int {
+	s := len(sw)
+	for _, e := range sw {
+		if e.Reason == "lpreempt" || e.Reason == "cpreempt" {
+			s += 1000
+		}
+	}
+	return s
 }
 
 type ufRow struct {
@@ -580,12 +593,33 @@ func (ex *explorer) runPath(prefix []int64, sv *Solver) {
 			ex.msgCount = map[string]int{}
 		}
 		ex.msgCount[key]++
+		// up to 6 counterexamples per distinct message; once there are 6, a new one replaces the
+		// kept one with the most preemptions if it needs fewer (schedules with few or no
+		// preemptions are the ones the native replay reproduces most reliably)
+		score := schedScore(r.switches)
 		keep := ex.msgCount[key] <= 6
+		replace := -1
+		if !keep && r.outcome == outcomeViolation {
+			worst := -1
+			for i, pr := range ex.results {
+				if pr.key == key && (worst < 0 || pr.score > ex.results[worst].score) {
+					worst = i
+				}
+			}
+			if worst >= 0 && ex.results[worst].score > score {
+				replace = worst
+			}
+		}
 		ex.mu.Unlock()
-		if keep {
+		if keep || replace >= 0 {
 			pr := r.result(r.outcome == outcomeViolation)
+			pr.key, pr.score = key, score
 			ex.mu.Lock()
-			ex.results = append(ex.results, pr)
+			if keep {
+				ex.results = append(ex.results, pr)
+			} else if replace < len(ex.results) && ex.results[replace].key == key && ex.results[replace].score > score {
+				ex.results[replace] = pr
+			}
 			if len(ex.results) >= 300 {
 				ex.stop = true
 				ex.cond.Broadcast()
